@@ -29,6 +29,8 @@ type World struct {
 	gstores map[*ssa.Global][]globalStore
 	gaddr   map[*ssa.Global]bool
 	repoFuncs []*ssa.Function
+	shapes  *shapeSet
+	shapeNotes []string
 }
 
 // scratchMod copies go.mod/go.sum of /repo into a scratch dir so that module
